@@ -269,6 +269,8 @@ class JobServerSemaphore:
             while self.__waitersCnt:
                 self.__tokens.append(os.read(self.__fds[0], 1))
                 self.__waitersCnt -= 1
+                # The slot belongs to the woken waiter from now on.
+                self.__acquired += 1
                 self.__sem.release()
         except BlockingIOError:
             pass
@@ -282,14 +284,15 @@ class JobServerSemaphore:
             return
         try:
             self.__tokens.append(os.read(self.__fds[0], 1))
+            self.__acquired += 1
         except BlockingIOError:
             if self.__waitersCnt == 0:
                 asyncio.get_event_loop().add_reader(self.__fds[0],
                     JobServerSemaphore.jobavailableCallback, self)
             self.__waitersCnt += 1
+            # Whoever wakes us up has already accounted the slot in
+            # self.__acquired on our behalf.
             await self.__sem.acquire()
-            pass
-        self.__acquired += 1
 
     async def __aenter__(self):
         await self.acquire()
@@ -299,6 +302,7 @@ class JobServerSemaphore:
         if self.__acquired == 0:
             raise ValueError ("BoundedSemaphore released too many times")
         if self.__waitersCnt != 0:
+           # Hand over our slot directly to a waiter. It stays acquired.
            self.__waitersCnt -= 1;
            self.__sem.release()
            if self.__waitersCnt == 0:
@@ -306,7 +310,7 @@ class JobServerSemaphore:
         else:
             if not self.__recursive or self.__acquired > 1:
                 os.write(self.__fds[1], self.__tokens.pop())
-        self.__acquired -= 1
+            self.__acquired -= 1
 
     async def __aexit__(self, exc_type, exc, tb):
         self.release()
